@@ -65,6 +65,7 @@ def body_box(E, n, which):
         seen['P'] = list(projections)
         return E.vec('dS', n), E.vec('gS', n), E.real('crv')
     E.patch('ctrsbox_sfista', sfista)
+    E.hooks(la=lambda name, args, kw: E.real('normH', lo=0) if name == 'norm2' else NotImplemented)   # spectral norm of H: LAPACK-level for n >= 2
     if which == 'step':
         C.trust_region_step(params, E.real('crit', npy=False, lo=0))
     else:
